@@ -27,7 +27,7 @@ class FnSpec:
         self.name = name; self.when = when; self.src = src
         self.requires = []; self.ensures = []; self.assigns = []; self.frees = []
         self.loops = {}      # k -> {'invariant': [Clause], 'assigns': [str], 'decreases': str}
-        self.replace = []; self.flags = []; self.level = 'L2'; self.harness = None; self.timeout = None
+        self.replace = []; self.flags = []; self.level = 'L2'; self.harness = None; self.timeout = None; self.solver = None
         self.cases = []      # [(name, C condition over the harness variables)]
         self.notes = []
 
@@ -148,6 +148,8 @@ def parse_file(path):
             cur.level = rest
         elif kw == 'timeout':
             cur.timeout = int(rest)
+        elif kw == 'solver':
+            cur.solver = rest.strip()
         elif kw == 'case':
             nm, _, cond = rest.partition(':')
             cur.cases.append((nm.strip(), cond.strip()))
